@@ -154,21 +154,27 @@ class NetworkXGraphStorageDisjoint:
 
         def extract_graph(self, graph_id: str) -> nx.Graph or None:
             self.lock.acquire()
-            graph = self.graphs[graph_id]
-            self.lock.release()
+            try:
+                graph = self.graphs[graph_id]
+            finally:
+                self.lock.release()
             return graph.copy()
 
         def get_graph(self, graph_id) -> nx.Graph:
             # return the store for this graph
             self.lock.acquire()
-            ret = self.graphs[graph_id]
-            self.lock.release()
+            try:
+                ret = self.graphs[graph_id]
+            finally:
+                self.lock.release()
             return ret
 
         def del_all_graphs(self) -> None:
             self.lock.acquire()
-            self.graphs.clear()
-            self.lock.release()
+            try:
+                self.graphs.clear()
+            finally:
+                self.lock.release()
 
         def add_blank_node_to_graph(self, graph_id, **attrs) -> int:
             # add a new node into a graph, return internal
